@@ -38,7 +38,7 @@ impl BytesSerializable for PurgeStream {
     }
 
     fn from_bytes(bytes: Bytes) -> Result<PurgeStream, IggyError> {
-        if bytes.len() < 5 {
+        if bytes.len() < 3 {
             return Err(IggyError::InvalidCommand);
         }
 
